@@ -1,6 +1,7 @@
 from contracts.alignment import CONTRACTS as _C
 from contracts.values import FormatValuesLength
-CONTRACTS = list(_C) + [FormatValuesLength]
+from contracts.geometry import CURVE_RESETS
+CONTRACTS = list(_C) + [FormatValuesLength] + list(CURVE_RESETS)
 
 MANIFEST = {
     "category": "proof",
